@@ -100,6 +100,25 @@ def apply_mutant(source, m):
     scope = _find_scope(tree, m.func)
     if scope is None:
         return None, "scope %s not found" % m.func
+    if m.find == "<FUNCTION>":
+        # whole-function replacement (the replacement may bring helper definitions with it)
+        new_nodes = ast.parse(_dedent(m.replace)).body
+        for n in _walk_ordered(tree):
+            blk = getattr(n, "body", None)
+            if isinstance(blk, list) and scope in blk:
+                i = blk.index(scope)
+                for nn in new_nodes:
+                    if isinstance(nn, ast.FunctionDef) and not nn.decorator_list and nn.name == scope.name:
+                        nn.decorator_list = scope.decorator_list
+                blk[i:i + 1] = new_nodes
+                ast.fix_missing_locations(tree)
+                new = ast.unparse(tree)
+                try:
+                    compile(new, m.relpath, "exec")
+                except SyntaxError as e:
+                    return None, "variant does not compile: %s" % e
+                return new, None
+        return None, "scope %s has no parent block" % m.func
     ftxt_e = _norm(m.find, "expr")
     ftxt_s = _norm(m.find, "stmt")
     try:
@@ -382,6 +401,15 @@ def run_thorough(prop, root, seed=0, write=True):
                 continue
             new = [k for k in bad if k not in quick_bad]
             exp = m.expect if isinstance(m.expect, (list, tuple)) else [m.expect]
+            if exp == ["SILENT"]:
+                # a property-preserving variant (a correct optimisation, an equivalent formulation): any report is a false alarm
+                if new or errs:
+                    rep.error("benign variant %s is reported: %s" % (name, (new[:3] or errs[:1])))
+                    results.setdefault("benign_reported", []).append(name)
+                else:
+                    results["benign_silent"] = results.get("benign_silent", 0) + 1
+                    results["killed"] += 1
+                continue
             hit = [k for k in new if all(e in k for e in exp)]
             if hit:
                 results["killed"] += 1
